@@ -172,6 +172,13 @@ def utf8_gen(tier):
                     ops.append(op_dump(0, "VS,VN,VR,WS"))
                 ops.append(op_run("w = utf8(u); ws = w.append(65).string(); wu = w.toupper().string(); wc = w.count();"))
                 ops.append(op_dump(0, "N,RS,ST,EM,WS,WC"))
+                # a transform changes the content it finds, not what is appended afterwards
+                ops.append(op_run('t1 = utf8(b); zz = t1.toupper(); p1 = t1.string(); zz = t1.append("cd\xc3\xa9"); q1 = t1.string(); '
+                                  't2 = utf8(b); zz = t2.tolower(); p2 = t2.string(); zz = t2.append("CD"); q2 = t2.string(); '
+                                  't3 = utf8(b); zz = t3.capitalize(); p3 = t3.string(); zz = t3.append(" xY"); q3 = t3.string(); '
+                                  't4 = utf8(b); zz = t4.normalize(); p4 = t4.string(); zz = t4.append("  A  B"); q4 = t4.string(); '
+                                  't5 = utf8(b); zz = t5.translit(); p5 = t5.string(); zz = t5.append("\xc3\xa9"); q5 = t5.string();'))
+                ops.append(op_dump(0, "P1,Q1,P2,Q2,P3,Q3,P4,Q4,P5,Q5"))
                 yield Case("u%d" % n, ops, {"kind": "utf8", "b": b.hex()})
                 n += 1
     return gen
@@ -202,6 +209,17 @@ def check_utf8(case, res, vs):
         if valid:
             vs.append(Violation("utf8:valid-rejected", "valid UTF-8 %r rejected: %s" % (b, st[3]), case))
         return vs, True
+    # the transform family (last two steps)
+    tdump = st[-1].get("vars", {})
+    appended = {1: "cd\xc3\xa9".encode("latin-1"), 2: b"CD", 3: b" xY", 4: b"  A  B", 5: "\xc3\xa9".encode("latin-1")}
+    tname = {1: "toupper", 2: "tolower", 3: "capitalize", 4: "normalize", 5: "translit"}
+    if st[-2].get("r") == "ok":
+        for k_ in appended:
+            pv, qv = sval(tdump.get("P%d" % k_)), sval(tdump.get("Q%d" % k_))
+            if pv[0] == "s" and qv[0] == "s" and qv[1] != pv[1] + appended[k_]:
+                vs.append(Violation("utf8:transform-applied-to-later-append:%s" % tname[k_], "%r: after %s() the content is %r; append(%r) makes it %r" % (
+                    b, tname[k_], pv[1], appended[k_], qv[1]), case))
+    st = st[:-2]
     final = st[-1].get("vars", {})
     if not valid:
         return vs, True
